@@ -280,7 +280,7 @@ def classify_assigns(b, params):
     b0 = re.sub(r"^: Entry\(\) ", "", b)
     # scalar setter
     m = re.match(r"^int r = 0; ((?:if \([^;]*\) return -?\d+; )*)SetScalar\((.*?), (\w+)\); if \(D != NULL\) \{ r = (gd_alter_entry\s*\(.*?\)); "
-                 r"if \(!r\) (?:r = (gd_get_constant\s*\([^;]*\));|\{ (.*) \}) \} return r;$", b0)
+                 r"if \(!r\) (?:r = (gd_(?:get_constant|cxx_get_scalar)\s*\([^;]*\));|\{ (.*) \}) \} return r;$", b0)
     if m:
         alter = parse_call(m.group(4), params)
         getc = parse_call(m.group(5), params) if m.group(5) else None
@@ -482,6 +482,17 @@ def main():
     except Exception as e:
         protos = {}
         problems.append("PROBLEM getdata.h.in: %s" % e)
+    # static inline helpers of bindings/cxx/internal.h (gd_cxx_*): callable like API functions, body pinned as text
+    try:
+        ih = strip_comments(open(os.path.join(cxx, "internal.h"), errors="replace").read())
+        for m in re.finditer(r"static\s+inline\s+([\w\s\*]+?)\b(gd_cxx_\w+)\s*\(([^)]*)\)\s*\{", ih, re.S):
+            st = m.end() - 1
+            en = match_brace(ih, st)
+            ps = parse_params(m.group(3))
+            protos.setdefault(m.group(2), (norm(m.group(1)), ps))
+            rows.append(("internal.h", "(helper)", m.group(2), ps, ("Opaque", norm(ih[st + 1:en - 1])), norm(m.group(1))))
+    except Exception as e:
+        problems.append("PROBLEM internal.h: %s" % e)
     os.makedirs(os.path.dirname(OUT), exist_ok=True)
     w = []
     w.append("(* GENERATED by translate/tr_cxx.py from %s/bindings/cxx and src/getdata.h.in -- do not edit *)" % "<repo>")
